@@ -157,8 +157,13 @@ def run(ctx, crate):
         # after the loops: section + "\n" + list appended to a report buffer, once per pattern
         outs = [s for s in g.pushes if g.in_loop(s, g.outer) and not g.in_loop(s, g.files) and s.args[0] != buf]
         sect_ok = False
-        for s in outs:
-            ps = R.flatten(s.args[1])
+        # (what is appended to one buffer by consecutive appends under one and the same condition is one text, whether it was concatenated first or not)
+        groups = {}
+        for s in sorted(outs, key=g.order_key):
+            groups.setdefault((s.args[0], repr(s.guard)), []).append(s)
+        for (_recv, _g), members in sorted(groups.items(), key=lambda kv: g.order_key(kv[1][0])):
+            s = members[-1]
+            ps = [p_ for m_ in members for p_ in R.flatten(m_.args[1])]
             if len(ps) == 3 and R.lit(ps[1]) == "\n" and ps[2] == buf:
                 sec = ps[0]
                 # section text comes from the dispatch on this pattern's key
